@@ -8,11 +8,11 @@ RULE = ('C14 histories on charts whose handlers also defer the current event and
         'nothing may be posted), a recalled event joins the BACK of the pending model, the deferred length must match after every '
         'step and the dispatch order of all events must equal the model (so a deferred event is never dispatched before its recall). '
         'Every sixth case runs 2-3 threads that recall at the same time (fewer recalls than deferred events) under detsched: each of the '
-        'oldest events must be returned and queued exactly once. Every fortieth case defers 501-1180 events on a chart class that raises QUEUE_SIZE to 600-1200 (the knob for queue capacities): none may be lost, recalls return the oldest first. distinct_nontrivial = distinct (host, defers, recalls, recalls-on-empty, steps) tuples with >= 1 defer or recall')
+        'oldest events must be returned and queued exactly once. Every fortieth case defers 501-1180 events on a chart class that raises QUEUE_SIZE to 600-1200 (the knob for queue capacities): none may be lost, recalls return the oldest first. Another fortieth recalls while the event queue is FULL or one or two short of full (stock capacity and chart classes with QUEUE_SIZE 3-17; plain chart and active object): the oldest deferred event is returned and is the last item of the queue, the rest stays deferred in order, a recall with nothing deferred leaves the queue as it was. distinct_nontrivial = distinct (host, defers, recalls, recalls-on-empty, steps) tuples with >= 1 defer or recall')
 CASES = {'quick': 4000, 'thorough': 250000}
 BUDGET = {'quick': 150, 'thorough': 300}
-REQUIRE = {'defers': 1000, 'recalls': 1000, 'recalls_on_empty': 100, 'overlapping_recall_runs': 211, 'large_capacity_cases': 33}
-ASSUME = ['queue capacity (500) is not reached']
+REQUIRE = {'defers': 1000, 'recalls': 1000, 'recalls_on_empty': 100, 'overlapping_recall_runs': 211, 'large_capacity_cases': 33, 'full_queue_recall_cases': 33, 'recalls_at_a_full_queue': 30}
+ASSUME = ['in the generated chart histories the queue capacity (500) is not reached; recalls at a full queue are driven directly (full_queue_recall_case)']
 
 
 def overlapping_recalls(ctx, n):
@@ -99,7 +99,63 @@ def large_capacity_case(ctx, n):
       return
 
 
+def full_queue_recall_case(ctx, n):
+  """a recall while the chart's event queue is full (or one or two short of full): the statement knows no exception for it - the
+  oldest deferred event is returned and is the last item of the queue afterwards, the others stay deferred in their order"""
+  import miros.hsm as H
+  import miros.activeobject as AO
+  from miros.event import Event
+  rng = ctx.rng('fullq', n)
+  base = rng.choice([H.HsmWithQueues, AO.ActiveObject])
+  small = rng.choice([None, None, 3, 4, 8, 17])
+
+  if small is None:
+    cls = base
+  else:
+    class Tight(base):
+      QUEUE_SIZE = small
+    cls = Tight
+  chart = cls() if base is H.HsmWithQueues else cls(name='c15_fullq')
+  q = getattr(chart.queue, 'deque', chart.queue)
+  cap = q.maxlen
+  if not cap:
+    return
+  short = rng.choice([0, 0, 0, 1, 2])
+  k = rng.randint(1, min(5, chart.defer_queue.maxlen or 5))
+  for i in range(max(0, cap - short)):
+    (chart.post_fifo if rng.random() < 0.8 else chart.post_lifo)(Event(signal='C15_F%d' % (i % 3), payload=('fill', i)))
+  for i in range(k):
+    chart.defer(Event(signal='C15_D%d' % (i % 4), payload=('deferred', i)))
+  ctx.count('full_queue_recall_cases')
+  ctx.distinct(('fullq', base.__name__, small, short, k))
+  wit = {'host': base.__name__, 'class_level_QUEUE_SIZE': small, 'queue_capacity': cap, 'queue_length_before_the_recalls': len(q), 'deferred': k}
+  if [e.payload for e in chart.defer_queue] != [('deferred', i) for i in range(k)]:
+    ctx.violation('C15/deferred-event-lost', 'after %d defers the defer queue holds %r' % (k, [e.payload for e in chart.defer_queue]), wit)
+    return
+  for i in range(k + rng.randint(0, 2)):
+    before = list(q)
+    e = chart.recall()
+    ctx.count('recalls_at_a_full_queue' if len(before) == cap else 'recalls_near_a_full_queue')
+    if i >= k:
+      if e is not None or list(q) != before:
+        ctx.violation('C15/recall-on-empty-posts', 'recall number %d with nothing deferred returned %r and changed the queue: %s' % (i + 1, e, list(q) != before), wit)
+        return
+      continue
+    if e is None or e.payload != ('deferred', i):
+      ctx.violation('C15/recall-order', 'recall number %d with %d events in a queue of capacity %d returned %r, the oldest deferred event is number %d; still deferred: %r'
+                    % (i + 1, len(before), cap, None if e is None else e.payload, i, [x.payload for x in chart.defer_queue]), wit)
+      return
+    if not len(q) or q[-1] is not e:
+      ctx.violation('C15/recall-not-at-back', 'the recalled event %d is not at the back of the queue (%d events in a queue of capacity %d before the recall)' % (i, len(before), cap), wit)
+      return
+    if [x.payload for x in chart.defer_queue] != [('deferred', j) for j in range(i + 1, k)]:
+      ctx.violation('C15/deferral-order', 'after recall number %d the defer queue holds %r' % (i + 1, [x.payload for x in chart.defer_queue]), wit)
+      return
+
+
 def run_case(ctx, n):
+  if n % 40 == 19:
+    return full_queue_recall_case(ctx, n)
   if n % 40 == 39:
     return large_capacity_case(ctx, n)
   if n % 6 == 5:
